@@ -12,7 +12,7 @@ RULE = ('complete enumeration of the finite domains: 52 cards (index, text, rank
         '5 denominations, and contracts 35 bids x 3 doubling states (both encodings of redoubled) x 4 '
         'vulnerabilities x 4 declarers + passed out (2 forms) x 4 vulnerabilities through str -> '
         'str_to_contract, the contract domain visited three times in different orders (as listed, reversed, strided by the seed) so that an answer depending on earlier calls is seen. Oracle: converter pairs compose to the identity, images are pairwise distinct, '
-        'and every notation equals the independent model\'s (vf/model). Every evaluated identity is counted '
+        'and every notation equals the independent model\'s (vf/model). Concurrent use: pairs of converter calls run as tasks of the schedule-owning kernel with a scheduling point at every source line of the value-object modules, on a freshly imported package per schedule; all schedules with <= 1 deviation from call-after-call execution are enumerated and each call must return what it returns alone. Every evaluated identity is counted '
         'once and is distinct by construction; non-trivial = all except the 52 reflexive card pairs.')
 ASSUMPTIONS = ['enum members are looked up by name (Bid["C1"], Player["N"]) at the boundary']
 
@@ -21,7 +21,8 @@ RANK_TXT = {2: '2', 3: '3', 4: '4', 5: '5', 6: '6', 7: '7', 8: '8', 9: '9', 10: 
 
 
 def plan(tier):
-    return [{'kind': k} for k in ('cards', 'card_pairs', 'calls', 'seats', 'vuls', 'contracts')]
+    return [{'kind': k} for k in ('cards', 'card_pairs', 'calls', 'seats', 'vuls', 'contracts')] + \
+        [{'kind': 'concurrent', 'shard': i, 'of': 8} for i in range(8)]
 
 
 def _distinct(images, clause, what):
@@ -223,7 +224,52 @@ def _contracts(stats):
     stats.cls('contract round trips', 35 * 4 * 16 + 8)
 
 
+# ---------------------------------------------------------------------------------------
+# concurrent use (line-level schedules, vf/props/_concurrent.py)
+
+def _p_calls(B):
+    return [lambda: [B.Bid.str_to_bid(t).name for t in ('3NT', 'Pass', 'XX')] + [B.Bid.int_to_bid(7).name],
+            lambda: [B.Bid.str_to_bid(t).name for t in ('X', '1C', '7NT')] + [B.Bid.level_suit_to_bid(2, B.Suit.H).name]]
+
+
+def _p_cards(B):
+    return [lambda: [str(B.Card.str_to_card(t)) for t in ('SA', 'C2')] + [int(B.Card.int_to_card(17))],
+            lambda: [str(B.Card.str_to_card(t)) for t in ('HT', 'D9')] + [B.Card.rank_int_to_str(10), B.Card.rank_str_to_int('J')]]
+
+
+def _p_contracts(B):
+    def show(c):
+        return (str(c), c.vul.name, None if c.declarer is None else c.declarer.name, bool(c.x), bool(c.xx), c.is_passed_out())
+    return [lambda: [show(B.Contract.str_to_contract('4SX', B.Vul.NS, B.Player.E)), show(B.Contract.str_to_contract('4S', B.Vul.NS, B.Player.E))],
+            lambda: [show(B.Contract.str_to_contract('4S', B.Vul.EW, B.Player.N)), show(B.Contract.str_to_contract('7NTXX', B.Vul.BOTH, B.Player.W)),
+                     show(B.Contract.str_to_contract(str(B.Contract(None, vul=B.Vul.NONE)), B.Vul.NONE, None))]]
+
+
+def _p_names(B):
+    return [lambda: [B.Vul.str_to_vul(t).name for t in ('All', 'None', 'Love')] + [B.Player.convert_formal_name('West').name],
+            lambda: [B.Vul.str_to_vul(t).name for t in ('-', 'EW', 'Both')] + [B.Player.convert_formal_name('North').name, B.Player.S.formal_name]]
+
+
+def concurrent_programs():
+    from vf.props import _concurrent as CC
+    tr = tuple(f'/bridge_env/{m}.py' for m in ('bid', 'card', 'contract', 'vul', 'player', 'suit', 'pair'))
+    return {'call converters': (_p_calls, CC.same_as_alone, tr), 'card converters': (_p_cards, CC.same_as_alone, tr),
+            'contract texts': (_p_contracts, CC.same_as_alone, tr), 'seat and vulnerability names': (_p_names, CC.same_as_alone, tr)}
+
+
+def run_concurrent(spec, stats):
+    from vf.props import _concurrent as CC
+    try:
+        for name, (prog, oracle, tr) in concurrent_programs().items():
+            CC.explore(name, prog, oracle, stats, bound=1, orders=(0, 1), trace=tr, shard=spec['shard'], of=spec['of'])
+    except Violation as v:
+        return [v]
+    return []
+
+
 def run_shard(spec, seed, tier, stats):
+    if spec['kind'] == 'concurrent':
+        return run_concurrent(spec, stats)
     SEED[0] = seed // 1000
     fn = {'cards': _cards, 'card_pairs': _card_pairs, 'calls': _calls, 'seats': _seats, 'vuls': _vuls,
           'contracts': _contracts}[spec['kind']]
@@ -239,6 +285,9 @@ def run_shard(spec, seed, tier, stats):
 
 def replay(rec):
     from vf.common.core import Stats
+    if 'concurrent_program' in rec['case']:
+        from vf.props import _concurrent as CC
+        return CC.replay(rec, concurrent_programs())
     try:
         {'cards': _cards, 'card_pairs': _card_pairs, 'calls': _calls, 'seats': _seats, 'vuls': _vuls,
          'contracts': _contracts}[rec['case']['domain']](Stats())
